@@ -60,3 +60,45 @@ Proof. split; reflexivity. Qed.
 Example ex_bool_normalises :
   decode (fun _ => true) [FBool] [2] = Some [VN 0] /\ encode [FBool] [VN 0] = Some [0].
 Proof. split; reflexivity. Qed.
+
+(* ---- TLV-carrying messages (generated descriptions of Gen/GenWire.v) ---- *)
+From LV Require Import Wire.MsgModel Gen.GenWire.
+
+(* hypotheses of C10_tlvmsg_roundtrip are satisfiable: a QueryChannelRange
+   value with its known record, a ChannelUpdate1 value with the max-htlc flag
+   set, the conditional field and the inbound-fee record *)
+Example ex_tlvmsg_valid :
+  let v := ([VB (repeat 7 32); VN 5; VN 6], [], [(1, [1; 2])]) in
+  tm_ok msg_QueryChannelRange = true /\
+  valid_tv (fun _ => true) msg_QueryChannelRange v = true /\
+  complete_tv msg_QueryChannelRange v = true.
+Proof. vm_compute. auto. Qed.
+
+Example ex_tlvmsg_cond_valid :
+  let v := ([VB (repeat 1 64); VB (repeat 2 32); VN 99; VN 1000; VN 1; VN 0; VN 40; VN 1; VN 2; VN 3],
+            [VN 123456], [(55555, [0; 0; 0; 1; 0; 0; 0; 2])]) in
+  tm_ok msg_ChannelUpdate1 = true /\
+  valid_tv (fun _ => true) msg_ChannelUpdate1 v = true /\
+  complete_tv msg_ChannelUpdate1 v = true /\
+  match encode_tm msg_ChannelUpdate1 v with
+  | Some e => decode_tm (fun _ => true) msg_ChannelUpdate1 e = Some v /\ length e = 148%nat
+  | None => False
+  end.
+Proof. vm_compute. auto. Qed.
+
+(* hypotheses of C10_tlvmsg_fixpoint / _loss_exactly_unknown: an accepted
+   QueryChannelRange whose known feature record has a leading zero byte
+   (normalised) and which carries an unknown odd record (dropped by Encode) *)
+Example ex_tlvmsg_loss :
+  let b := repeat 7 32 ++ [0; 0; 0; 5; 0; 0; 0; 6] ++ [1; 2; 0; 9] ++ [3; 1; 255] in
+  decode_tm (fun _ => true) msg_QueryChannelRange b =
+    Some ([VB (repeat 7 32); VN 5; VN 6], [], [(1, [9]); (3, [255])]) /\
+  out_recs msg_QueryChannelRange [(1, [9]); (3, [255])] = [(1, [9])].
+Proof. vm_compute. auto. Qed.
+
+(* a Merge message keeps the unknown record; the always-produced record of
+   OpenChannel (upfront shutdown script, type 0) is inserted by Decode *)
+Example ex_tlvmsg_merge_keeps :
+  out_recs msg_UpdateFulfillHTLC [(3, [255]); (65537, [1])] = [(3, [255]); (65537, [1])] /\
+  ensure_all (always_types (tm_known msg_OpenChannel)) [(1, [2])] = [(0, []); (1, [2])].
+Proof. vm_compute. auto. Qed.
